@@ -501,3 +501,68 @@ ROUND7_MUTANTS += [
 ]
 TWINS = TWINS + ROUND7_TWINS
 MUTANTS = MUTANTS + ROUND7_MUTANTS
+
+
+# ---------------------------------------------------------------------------------------------------------------------
+# round 8: a scan of the wrapped dicts split into a prefix and its complement (first, *rest = self.dicts / self.dicts[0]
+# + self.dicts[1:] / two halves / the parts joined again), both read in list order = the full ordered scan (R8.7); and
+# the splits that are not: a dict dropped, the rest reversed, the rest read first
+_SP_GETITEM = "        for d in self.dicts:\n            if key in d:\n                return d[key]\n        raise exceptions.BadRequestKeyError(key)"
+_SP_CONTAINS = "        for d in self.dicts:\n            if key in d:\n                return True\n        return False"
+_SP_GETLIST = "        rv = []\n        for d in self.dicts:\n            rv.extend(d.getlist(key, type))  # type: ignore[arg-type]\n        return rv"
+_SP_KEYS_IMPL = "        return set(k for d in self.dicts for k in d)"
+_SP_ITER = "        return iter(self._keys_impl())"
+_SP_LEN = "        return len(self._keys_impl())"
+_SP_GET_HEAD = "        for d in self.dicts:\n            if key in d:\n                if type is not None:\n                    try:\n                        return type(d[key])"
+
+SPLIT_TWINS = [
+    {"name": "split:getitem-unpack-first-star-rest", "edits": [(S, _SP_GETITEM,
+        "        if not self.dicts:\n            raise exceptions.BadRequestKeyError(key)\n        first, *rest = self.dicts\n        if key in first:\n            return first[key]\n        for d in rest:\n            if key in d:\n                return d[key]\n        raise exceptions.BadRequestKeyError(key)")]},
+    {"name": "split:contains-head-index-then-tail-slice", "edits": [(S, _SP_CONTAINS,
+        "        if not self.dicts:\n            return False\n        head = self.dicts[0]\n        if key in head:\n            return True\n        for d in self.dicts[1:]:\n            if key in d:\n                return True\n        return False")]},
+    {"name": "split:getitem-iterator-next-then-for", "edits": [(S, _SP_GETITEM,
+        "        it = iter(self.dicts)\n        first = next(it, None)\n        if first is None:\n            raise exceptions.BadRequestKeyError(key)\n        if key in first:\n            return first[key]\n        for d in it:\n            if key in d:\n                return d[key]\n        raise exceptions.BadRequestKeyError(key)")]},
+    {"name": "split:getlist-first-result-extended-by-rest", "edits": [(S, _SP_GETLIST,
+        "        if not self.dicts:\n            return []\n        first, *rest = self.dicts\n        rv = list(first.getlist(key, type))  # type: ignore[arg-type]\n        for d in rest:\n            rv.extend(d.getlist(key, type))  # type: ignore[arg-type]\n        return rv")]},
+    {"name": "split:keys-impl-head-slice-then-tail-update", "edits": [(S, _SP_KEYS_IMPL,
+        "        head, tail = self.dicts[:1], self.dicts[1:]\n        keys = set(k for d in head for k in d)\n        for d in tail:\n            keys.update(d)\n        return keys")]},
+    {"name": "split:iter-iterator-seeded-with-first", "edits": [(S, _SP_ITER,
+        "        it = iter(self.dicts)\n        seen = set(next(it, ()))\n        for d in it:\n            seen.update(d)\n        return iter(seen)")]},
+    {"name": "split:len-first-keys-then-union-of-rest", "edits": [(S, _SP_LEN,
+        "        keys = set(self.dicts[0]) if self.dicts else set()\n        for d in self.dicts[1:]:\n            keys |= d.keys()\n        return len(keys)")]},
+    {"name": "split:get-scans-prefix-plus-complement", "edits": [(S, _SP_GET_HEAD,
+        "        first, rest = self.dicts[:1], self.dicts[1:]\n        for d in first + rest:\n            if key in d:\n                if type is not None:\n                    try:\n                        return type(d[key])")]},
+    {"name": "split:contains-any-of-head-or-any-of-tail", "edits": [(S, _SP_CONTAINS,
+        "        dicts = self.dicts\n        return any(key in d for d in dicts[:1]) or any(key in d for d in dicts[1:])")]},
+    {"name": "split:getitem-two-halves", "edits": [(S, _SP_GETITEM,
+        "        mid = len(self.dicts) // 2\n        for d in self.dicts[:mid]:\n            if key in d:\n                return d[key]\n        for d in self.dicts[mid:]:\n            if key in d:\n                return d[key]\n        raise exceptions.BadRequestKeyError(key)")]},
+    {"name": "split:getlist-head-index-tail-slice-alias", "edits": [(S, _SP_GETLIST,
+        "        wrapped = self.dicts\n        if not wrapped:\n            return []\n        rv = list(wrapped[0].getlist(key, type))  # type: ignore[arg-type]\n        for d in wrapped[1:]:\n            rv += d.getlist(key, type)  # type: ignore[arg-type]\n        return rv")]},
+]
+
+def _derive_split(name, repl):
+    tw = next(t for t in SPLIT_TWINS if t["name"] == name)
+    out = []; hit = 0
+    for rel, old, new in tw["edits"]:
+        for a, b in repl:
+            if a in new:
+                assert new.count(a) == 1, (name, a)
+                new = new.replace(a, b); hit += 1
+        out.append((rel, old, new))
+    assert hit == len(repl), (name, hit)
+    return out
+
+SPLIT_MUTANTS = [
+    {"name": "split:tail-slice-skips-second-dict", "expect": "R8.7", "edits": _derive_split("split:contains-head-index-then-tail-slice", [("in self.dicts[1:]:", "in self.dicts[2:]:")])},
+    {"name": "split:rest-reversed", "expect": "R8.7", "edits": _derive_split("split:getitem-unpack-first-star-rest", [("        for d in rest:", "        for d in reversed(rest):")])},
+    {"name": "split:rest-read-before-first", "expect": "R8.7", "edits": [(S, _SP_GETITEM,
+        "        if not self.dicts:\n            raise exceptions.BadRequestKeyError(key)\n        first, *rest = self.dicts\n        for d in rest:\n            if key in d:\n                return d[key]\n        if key in first:\n            return first[key]\n        raise exceptions.BadRequestKeyError(key)")]},
+    {"name": "split:tail-slice-read-before-head", "expect": "R8.7", "edits": _derive_split("split:get-scans-prefix-plus-complement", [("in first + rest:", "in rest + first:")])},
+    {"name": "split:halves-leave-a-gap", "expect": "R8.7", "edits": _derive_split("split:getitem-two-halves", [("in self.dicts[mid:]:", "in self.dicts[mid + 1:]:")])},
+    {"name": "split:getlist-rest-only", "expect": "R8.7", "edits": _derive_split("split:getlist-first-result-extended-by-rest", [("        rv = list(first.getlist(key, type))  # type: ignore[arg-type]\n", "        rv = []\n")])},
+    {"name": "split:keys-tail-from-two", "expect": "R8.7", "edits": _derive_split("split:keys-impl-head-slice-then-tail-update", [("self.dicts[:1], self.dicts[1:]", "self.dicts[:1], self.dicts[2:]")])},
+    {"name": "split:len-first-dict-dropped", "expect": "R8.7", "edits": _derive_split("split:len-first-keys-then-union-of-rest", [("set(self.dicts[0]) if self.dicts else set()", "set()")])},
+    {"name": "split:any-of-tail-only-after-last", "expect": "R8.7", "edits": _derive_split("split:contains-any-of-head-or-any-of-tail", [("dicts[:1]) or any", "dicts[-1:]) or any")])},
+]
+TWINS = TWINS + SPLIT_TWINS
+MUTANTS = MUTANTS + SPLIT_MUTANTS
